@@ -6,6 +6,7 @@
 Fault injection (C27): `fakepool.faults` (module level) or `pool.faults` = callable(statement_index, sql) -> Optional[Exception]
 or an iterator yielding Optional[Exception]; it is consulted before each statement executes. "Statements" are: '<acquire>'
 (taking a connection), every cursor.execute / executemany batch, 'COMMIT' and 'ROLLBACK' issued through the connection.
+An exception returned for 'COMMIT' and wrapped in `commit_applied(exc)` is raised AFTER the commit took effect (ambiguous commit).
 `pool.log` records (index, session name, sql) of everything that reached the fake server.
 
 Server-side effect of an injected error (assumptions, listed in the README):
@@ -24,6 +25,12 @@ from typing import Any, Callable, Iterable, List, Optional
 from .engine import MiniDB, Session
 
 faults: Any = None
+
+
+def commit_applied(exc: Exception) -> Exception:
+    """mark a connection-level error returned by a fault hook at 'COMMIT' as raised AFTER the server applied the commit"""
+    exc.verif_commit_applied = True          # type: ignore[attr-defined]
+    return exc
 
 # If True, an injected 2013/2006 closes the fake connection as aiomysql does (Connection._read_bytes calls self.close()), and
 # any later use (including rollback()) raises pymysql.err.InterfaceError(0, 'Not connected').  aiomysql is not installed in this
@@ -200,7 +207,21 @@ class FakeConnection(_aiomysql.Connection):
 
     async def commit(self):
         self._check_usable()
-        self._fault('COMMIT')
+        pool = self._pool
+        exc = pool._next_fault('COMMIT', self._session.name)
+        if exc is not None and getattr(exc, 'verif_commit_applied', False):
+            # AMBIGUOUS COMMIT: the server commits, the acknowledgement is lost (2013 / 2006 on the client side)
+            self._session.commit()
+            if lost_connection_breaks_connection:
+                self._broken = True
+            raise exc
+        if exc is not None:
+            code = exc.args[0] if exc.args else None
+            if code == 1213 or code in CONNECTION_LEVEL_CODES:
+                self._session.rollback()
+                if code in CONNECTION_LEVEL_CODES and lost_connection_breaks_connection:
+                    self._broken = True
+            raise exc
         self._session.commit()
 
     async def rollback(self):
